@@ -135,4 +135,5 @@ def run(ctx, rep):
     if _guards is not None:
         _guards.run(F, rep, ctx)
     _predtable.run(F, rep, ctx)
+    _predtable.run_conditions(F, rep)
     _identity.run(F, rep)
